@@ -1,7 +1,7 @@
 SPECIFICATION LSpec
 CONSTANTS
   LKeys = {"k1","k2","k3"}
-  LCaps = {1,2}
+  LCaps = {2}
   LTTLs = {2}
   LMaxT = 4
 INVARIANT LInv
